@@ -1,4 +1,4 @@
 From Coq Require Extraction ExtrOcamlBasic.
 From Centro Require Import Base.Sx Base.ThresholdNum Model.ThresholdRun Model.OtsuQ Spec.ThresholdSpec.
 Extraction Language OCaml.
-Extraction "extracted/c11.ml" entry_run entry_ref entry_check entry_fmul entry_otsu.
+Extraction "extracted/c11.ml" entry_run entry_ref entry_check entry_fmul entry_fmul32 entry_otsu.
